@@ -739,13 +739,25 @@ func toDecimal64(val interface{}) (float64, error) {
 	case int64:
 		return int64ToFloat(x)
 	case float32:
-		return float64(x), nil
+		return finite(float64(x))
 	case float64:
-		return x, nil
+		return finite(x)
 	case string:
-		return strconv.ParseFloat(x, 64)
+		f, err := strconv.ParseFloat(x, 64)
+		if err != nil {
+			return 0, err
+		}
+		return finite(f)
 	}
 	return 0, fmt.Errorf("cannot coerse '%T' to float64", val)
+}
+
+// finite refuses NaN and the infinities, a decimal64 has neither
+func finite(f float64) (float64, error) {
+	if math.IsNaN(f) || math.IsInf(f, 0) {
+		return 0, fmt.Errorf("cannot coerse %v to decimal64", f)
+	}
+	return f, nil
 }
 
 // int64ToFloat fails for integers a float64 cannot hold exactly (beyond 2^53).
